@@ -18,7 +18,10 @@ THEOREMS = [f"Nice.Props.C08.{t}" for t in (
     # end-to-end over the concrete model with a ghost stream (Nice/Proofs/PTcpStream*.lean)
     "C08_recv_stream_prefix_partial", "C08_eos_after_all_data_partial", "C08_recv_eos_means_all_read_partial",
     "C08_handshake_establishes_invariant", "C08_recv_stream_prefix_from_init_partial",
-    "C08_sender_segments_from_stream", "C08_send_ring_is_stream_suffix", "C08_committed_bytes_are_stream")]
+    "C08_sender_segments_from_stream", "C08_send_ring_is_stream_suffix", "C08_committed_bytes_are_stream")] + [
+    # the end-of-stream predicate the E theorems speak about IS the code's (regenerated from pseudotcp.c, Props/C10Kernels)
+    "Nice.Props.C10Kernels.C10_model_has_received_fin_is_code", "Nice.Props.C10Kernels.C10_is_closed_remotely_is_code",
+    "Nice.Props.C10Kernels.C10_fin_ack_implies_both_fins"]
 TRUSTED = P.TRUSTED[:3] + [
     "end-to-end theorems (N-recv, E, N-send) are proved about the hand-written, differential-tested model Nice/Model/PTcp.lean: "
     "for ANY sequence of model operations whose packets are slices of the peer's stream W (any order, duplicates, loss), what "
